@@ -55,7 +55,7 @@ EXP_MAX = 709.0       # exp(x) overflows at 709.78
 NEAR_MAX = 640.0      # cause probe: back-extrapolation this close to the overflow has no room for t < 0
 
 SAMPLES = dict(
-    quick=("Co30Fe70", "Au", "NaCl", "Eu", "Co", "SiO2"),
+    quick=("Co30Fe70", "Au", "NaCl", "Eu", "Co", "SiO2", "Hf", "Lu2O3"),
     thorough=("Co30Fe70", "Au", "NaCl", "Eu", "Co", "SiO2", "In", "Hf", "Ag", "Lu2O3", "CdTe", "B4C"),
 )
 # the two tiers differ only in the samples; the grid below costs seconds
@@ -78,10 +78,10 @@ META = dict(
           "Sample.calculate_activation + Sample.decay_time on a fresh Sample; a case is non-trivial when the "
           "activity at removal is above the target, so that a positive time has to be solved for"),
     bound=dict(
-        quick="6 samples (Co30Fe70, Au, NaCl, Eu, Co, SiO2) x 4 masses x 3 environments x 3 exposures = 216 "
+        quick="8 samples (Co30Fe70, Au, NaCl, Eu, Co, SiO2, Hf, Lu2O3) x 4 masses x 3 environments x 3 exposures = 288 "
               "configurations x (17 + 2) rest-time lists x 26 target multipliers (1e-9 .. 10 times the activity at "
               "removal, with 1-1e-9, 1, 1+1e-9)",
-        thorough="12 samples (quick + In, Hf, Ag, Lu2O3, CdTe, B4C) x 4 masses x 3 environments x 3 exposures = 432 "
+        thorough="12 samples (quick + In, Ag, CdTe, B4C) x 4 masses x 3 environments x 3 exposures = 432 "
                  "configurations x (17 + 2) rest-time lists x 26 target multipliers (contains the quick grid)"),
     assumptions=[
         "the activities at removal and the half-lives are those served by calculate_activation(rest_times=[0]) "
